@@ -238,3 +238,36 @@ def load_known():
         if e.get('status') == 'known':
             out[e['key']] = e
     return out
+
+
+def place_switch_guard(prog, body, place_re, sink_blocks, accept_true=True):
+    """Every path from entry to each sink block passes the accepting edge of a switchInt whose
+    discriminant is a copy of a place matching place_re (e.g. the `proved` flag `((*_2).0: bool)`).
+    Returns (ok, n_decisions)."""
+    cfg = prog.cfg(body)
+    pr = re.compile(place_re)
+    dec_edges = set()
+    ndec = 0
+    for bid, blk in body.blocks.items():
+        if blk.cleanup or blk.term.kind != 'switchInt':
+            continue
+        d = blk.term.discr.strip()
+        for pre in ('move ', 'copy '):
+            if d.startswith(pre):
+                d = d[len(pre):]
+        ok_src = bool(pr.search(d))
+        if not ok_src and re.fullmatch(r'_\d+', d):
+            # look for the defining assignment in the same block
+            for s in blk.stmts:
+                if s.kind == 'assign' and s.lhs.strip() == d and pr.search(s.rhs):
+                    ok_src = True
+        if not ok_src:
+            continue
+        ndec += 1
+        for c, tgt in blk.term.cases:
+            is_true = (c == 'otherwise') or (isinstance(c, int) and c != 0)
+            if is_true == accept_true:
+                dec_edges.add((bid, tgt))
+    reach = cfg.reachable_from([cfg.entry], removed_edges=dec_edges)
+    ok = all(sb not in reach for sb in sink_blocks)
+    return ok, ndec
